@@ -35,8 +35,11 @@ lane() {
       fi;;
     esac
     local o rc v first
-    o=$(GV_ROOT="$L/verif" GV_TOOL="$L/tool/release/cfn-guard" VERIF_SEED="${VERIF_SEED:-1}" "$L/verif/harness/target/release/gv" run "$id" quick 2>&1 | grep -v '^proptest'); rc=$?
+    o=$( (GV_ROOT="$L/verif" GV_TOOL="$L/tool/release/cfn-guard" VERIF_SEED="${VERIF_SEED:-1}" "$L/verif/harness/target/release/gv" run "$id" quick; echo "GVRC=$?") 2>&1 | grep -v '^proptest')
+    rc=$(echo "$o" | sed -n 's/^GVRC=//p' | tail -1)
     v=$(echo "$o" | grep -c '^VIOLATION')
+    # exit 2 (inconclusive: watchdog, generator health) is not a verdict on the seed
+    if [ "$rc" != 0 ] && [ "$rc" != 1 ]; then echo "$name own=-3 check exited $rc: $(echo "$o" | grep -i -m1 inconclusive | cut -c1-160)" >> "$base/result.log"; continue; fi
     first=$(echo "$o" | grep -A1 '^VIOLATION' | head -2 | tail -1 | cut -c1-220)
     echo "$name own=$v $first" >> "$base/result.log"
     python3 - "$d/checks_result.json" "$id" "$v" "$first" <<'PY'
